@@ -286,8 +286,8 @@ class QuicPacketBuilder:
                 self._datagram_needs_padding
                 and self._packet_type == QuicPacketType.ONE_RTT
             ):
-                if self.remaining_flight_space > padding_size:
-                    padding_size = self.remaining_flight_space
+                if self.remaining_buffer_space > padding_size:
+                    padding_size = self.remaining_buffer_space
                 self._datagram_needs_padding = False
 
             # write padding
@@ -371,7 +371,7 @@ class QuicPacketBuilder:
             # Padding for datagrams containing initial packets; see RFC 9000
             # section 14.1.
             if self._datagram_needs_padding:
-                extra_bytes = self._flight_capacity - self._buffer.tell()
+                extra_bytes = self._buffer_capacity - self._buffer.tell()
                 if extra_bytes > 0:
                     self._buffer.push_bytes(bytes(extra_bytes))
                     self._datagram_flight_bytes += extra_bytes
